@@ -325,7 +325,12 @@ class Models:
 
     def m_from_be_bytes(self, e, st, a, little=False):
         bs = self._bytes_of(st, a[0], e)
-        ty = self.I.int_ty(e)
+        ty = self.I.int_ty(e) if isinstance(e.get("t"), int) else None
+        if ty is None:
+            # called through a function value (`.map(u16::from_be_bytes)`): the integer type is part of the path
+            import re as _re
+            m_ = _re.search(r"<impl (\w+)>::from_[bl]e_bytes", e.get("fn") or "")
+            ty = m_.group(1) if m_ else None
         if bs is None or ty is None:
             return None
         if little:
